@@ -245,6 +245,7 @@ func c08ParkedAbove(base map[string]int, bound time.Duration) []string {
 }
 
 type c08BlockedObs struct {
+	wedged    []string // calls made by the lane that never returned (per-call watchdog)
 	reached   bool
 	stalledAt int64
 	res       string // class of what the pending operation returned
@@ -415,7 +416,11 @@ func c08BlockedExec(proto, shape, kind string) (o c08BlockedObs) {
 	rb := respBody
 	rmu.Unlock()
 	if rb != nil {
-		rb.Close()
+		// (per-call watchdog: Close after a failed Read has to return)
+		if w := c08Watch("Response.Body.Close() after the cancelled read", func() { rb.Close() }); w != "" {
+			o.wedged = append(o.wedged, w)
+			return
+		}
 	}
 	if o.pending {
 		select {
@@ -424,14 +429,21 @@ func c08BlockedExec(proto, shape, kind string) (o c08BlockedObs) {
 		}
 	}
 	// the client is still usable
-	fresp, ferr := c.R().Get(p.plain)
-	if ferr == nil {
-		var b []byte
-		b, ferr = io.ReadAll(fresp.Body)
-		fresp.Body.Close()
-		if ferr == nil && string(b) != "ok" {
-			ferr = fmt.Errorf("follow-up body %q", b)
+	var ferr error
+	if w := c08Watch("follow-up request", func() {
+		var fresp *Response
+		fresp, ferr = c.R().Get(p.plain)
+		if ferr == nil {
+			var b []byte
+			b, ferr = io.ReadAll(fresp.Body)
+			fresp.Body.Close()
+			if ferr == nil && string(b) != "ok" {
+				ferr = fmt.Errorf("follow-up body %q", b)
+			}
 		}
+	}); w != "" {
+		o.wedged = append(o.wedged, w)
+		return
 	}
 	o.follow = ferr
 	c.GetTransport().CloseIdleConnections()
@@ -522,6 +534,9 @@ func c08BlockedLane(t *testing.T, proto string) {
 			}
 			if !o.recvStop && proto != "h1" {
 				failed = append(failed, "receive-side-not-stopped")
+			}
+			for _, w := range o.wedged {
+				failed = append(failed, "WEDGED: "+w)
 			}
 			if o.follow != nil {
 				failed = append(failed, "follow-up-failed:"+c08Class(o.follow))
